@@ -65,12 +65,13 @@ theorem wf_update {s s' : State} {id : Id} {c' : Contract} (hs : WF s)
     (hc : c'.sender ≠ escrow ∧
       (c'.transfer = true → ∃ d n, c'.amount = [(d, n)] ∧ c'.direction ≠ .none ∧ (AMap.get? s'.supplies d).isSome) ∧
       (c'.transfer = false → c'.direction = .none)) : WF s' := by
+  refine ⟨by rw [hh]; exact nodup_keys_set _ _ _ hs.1, ?_⟩
   intro id2 c2 hg
   rw [hh, get?_set] at hg
   by_cases e : id = id2
   · simp [e] at hg; subst hg; exact hc
   · simp [e] at hg
-    obtain ⟨h1, h2, h3⟩ := hs id2 c2 hg
+    obtain ⟨h1, h2, h3⟩ := hs.2 id2 c2 hg
     refine ⟨h1, fun ht => ?_, h3⟩
     obtain ⟨d, n, ha, hd, hsm⟩ := h2 ht
     exact ⟨d, n, ha, hd, hsup d hsm⟩
@@ -78,9 +79,10 @@ theorem wf_update {s s' : State} {id : Id} {c' : Contract} (hs : WF s)
 /-- `WF` when only the supplies (monotonically) or other tables changed -/
 theorem wf_same {s s' : State} (hs : WF s) (hh : s'.htlcs = s.htlcs)
     (hsup : ∀ d, (AMap.get? s.supplies d).isSome → (AMap.get? s'.supplies d).isSome) : WF s' := by
+  refine ⟨by rw [hh]; exact hs.1, ?_⟩
   intro id2 c2 hg
   rw [hh] at hg
-  obtain ⟨h1, h2, h3⟩ := hs id2 c2 hg
+  obtain ⟨h1, h2, h3⟩ := hs.2 id2 c2 hg
   refine ⟨h1, fun ht => ?_, h3⟩
   obtain ⟨d, n, ha, hd, hsm⟩ := h2 ht
   exact ⟨d, n, ha, hd, hsup d hsm⟩
@@ -455,7 +457,7 @@ theorem inv_stepClaim {s s' : State} {id secret lk} (hs : Inv s)
     (h : stepClaim s id secret lk = .ok s') : Inv s' := by
   obtain ⟨c, s1, hget, hopen, _, hf, rfl⟩ := stepClaim_ok h
   obtain ⟨hwf, hq, hge, hcnt⟩ := hs
-  obtain ⟨hsnd, hwt, hwp⟩ := hwf id c hget
+  obtain ⟨hsnd, hwt, hwp⟩ := hwf.2 id c hget
   rcases claimFunds_ok hf with ⟨ht, b, hb, rfl⟩ | ⟨ht, hdir, d0, n, r, hamt, hci⟩ | ⟨ht, hdir, d0, n, r, hamt, hco⟩
   · -- plain
     refine ⟨?_, ?_, ?_, ?_⟩
